@@ -294,3 +294,7 @@ fn parse_timestamp(tz: TimeZone, s: &str) -> Result<DateTime<Utc>, Error> {
 
     Err(Error::AutoTimestampParse { s: s.into() })
 }
+
+#[cfg(kani)]
+#[path = "/verif/kani/conversion.rs"]
+mod kani_verif;
